@@ -167,6 +167,19 @@ fn all_dags(n: usize) -> Vec<u32> {
     out
 }
 
+/// All labelled DAGs on n nodes with at most `max_edges` edges (no self-loops).
+fn sparse_dags(n: usize, max_edges: usize) -> Vec<u32> {
+    let pairs: Vec<(usize, usize)> = (0..n).flat_map(|a| (0..n).filter(move |&b| b != a).map(move |b| (a, b))).collect();
+    let mut out = vec![];
+    for sub in combi::subsets_upto(pairs.len(), max_edges) {
+        let mask = sub.iter().fold(0u32, |m, &i| m | 1 << (pairs[i].0 * n + pairs[i].1));
+        if acyclic(mask, n) {
+            out.push(mask);
+        }
+    }
+    out
+}
+
 struct Model {
     n: usize,
     mask: u32,
@@ -327,19 +340,32 @@ fn merge_section(thorough: bool, viols: &Viols) -> (Stats, Value) {
     // per n: list of (max enemy-set size, history lengths over ALL ordered pairs incl. (u,u),
     //                 extra history lengths over pairs u != v only)
     type Sub = (usize, std::ops::RangeInclusive<usize>, std::ops::RangeInclusive<usize>);
-    let plans: Vec<(usize, Vec<Sub>)> = if thorough {
+    // (n, max edges of the DAG (None = all DAGs), sub-plans)
+    let plans: Vec<(usize, Option<usize>, Vec<Sub>)> = if thorough {
         vec![
-            (2, vec![(1, 1..=4, 1..=0)]),
-            (3, vec![(2, 1..=4, 1..=0)]),
-            (4, vec![(2, 1..=3, 1..=0), (1, 1..=0, 4..=4)]),
+            (2, None, vec![(1, 1..=4, 1..=0)]),
+            (3, None, vec![(2, 1..=4, 1..=0)]),
+            (4, None, vec![(2, 1..=3, 1..=0), (1, 1..=0, 4..=4)]),
+            // 5 nodes, sparse DAGs, up to 3 enemy pairs (both merged groups can carry enemy sets of
+            // different sizes)
+            (5, Some(2), vec![(3, 1..=2, 1..=0)]),
+            (5, Some(1), vec![(3, 1..=0, 3..=3)]),
         ]
     } else {
-        vec![(2, vec![(1, 1..=3, 1..=0)]), (3, vec![(1, 1..=3, 1..=0)]), (4, vec![(1, 1..=2, 3..=3)])]
+        vec![
+            (2, None, vec![(1, 1..=3, 1..=0)]),
+            (3, None, vec![(1, 1..=3, 1..=0)]),
+            (4, None, vec![(1, 1..=2, 3..=3)]),
+            (5, Some(1), vec![(3, 1..=2, 1..=0)]),
+        ]
     };
     let mut total = Stats::new();
     let mut info = vec![];
-    for (n, subs) in plans {
-        let dags = all_dags(n);
+    for (n, max_edges, subs) in plans {
+        let dags = match max_edges {
+            None => all_dags(n),
+            Some(k) => sparse_dags(n, k),
+        };
         let pairs: Vec<(usize, usize)> = (0..n).flat_map(|a| (a + 1..n).map(move |b| (a, b))).collect();
         let full: Vec<(usize, usize)> = (0..n).flat_map(|a| (0..n).map(move |b| (a, b))).collect();
         let distinct: Vec<(usize, usize)> = full.iter().copied().filter(|&(a, b)| a != b).collect();
@@ -355,13 +381,13 @@ fn merge_section(thorough: bool, viols: &Viols) -> (Stats, Value) {
             for l in pair_lens.clone() {
                 hists.extend(combi::sequences(&distinct, l));
             }
-            info.push(json!({"n": n, "dags": dags.len(), "enemy_sets": enemy_sets.len(), "max_enemies": max_en,
+            info.push(json!({"n": n, "max_dag_edges": max_edges, "dags": dags.len(), "enemy_sets": enemy_sets.len(), "max_enemies": max_en,
                 "histories": hists.len(), "lengths_all_ops": format!("{full_lens:?}"), "lengths_distinct_pairs": format!("{pair_lens:?}")}));
             let jobs: Vec<(u32, usize)> = dags.iter().flat_map(|&d| (0..enemy_sets.len()).map(move |e| (d, e))).collect();
             let s = par_map(jobs.len(), ncpu().min(16), |j| {
                 let (mask, ei) = jobs[j];
                 let mut st = Stats::new();
-                st.nontrivial(&(n, mask, ei));
+                st.nontrivial(&(n, mask, ei, enemy_sets[ei].len()));
                 for h in &hists {
                     // predecessor lists in descending order as a second iteration order (thorough, short histories)
                     let modes: &[bool] = if thorough && h.len() <= 3 && mask.count_ones() >= 2 { &[false, true] } else { &[false] };
